@@ -235,6 +235,62 @@ func c16Space(name string, ts []*tree.Node, paths []string, nopts int) *core.Spa
 	}
 }
 
+// c16Reuse: Option values are reused across Merge calls in different combinations
+// (first call: a+b, second call: a alone); the second call must behave like a alone.
+func c16Reuse(ts []*tree.Node, paths []string) *core.Space {
+	n := len(ts)
+	np, nf, npath := len(allPolicies), len(fieldPolicies), len(paths)
+	radices := []int{n, n, np, npath, nf, npath, nf}
+	dec := func(i int) (tree.Policy, *tree.Node, *tree.Node, fieldOpt, fieldOpt) {
+		d := mixedRadix(i, radices...)
+		return allPolicies[d[2]], tree.Label(ts[d[0]], "A"), tree.Label(ts[d[1]], "B"), fieldOpt{paths[d[3]], fieldPolicies[d[4]]}, fieldOpt{paths[d[5]], fieldPolicies[d[6]]}
+	}
+	return &core.Space{
+		Name: "reused-option-values",
+		Size: product(radices...),
+		Text: func(i int) string {
+			g, a, b, f1, f2 := dec(i)
+			return fmt.Sprintf("global=%s o1:=%s(%q) o2:=%s(%q); Merge(A,B,o1,o2); then fresh A=%s B=%s Merge(A,B,o1)", g, fieldOptName(f1.Policy), f1.Path, fieldOptName(f2.Policy), f2.Path, a, b)
+		},
+		Exec: func(i int) core.Result {
+			g, a, b, f1, f2 := dec(i)
+			want := tree.MergeAt(fieldPolicyFn(g, []fieldOpt{f1}, false), nil, a, b).Canon()
+			want2 := tree.MergeAt(fieldPolicyFn(g, []fieldOpt{f1}, true), nil, a, b).Canon()
+			var got string
+			var err error
+			pi := core.Guard(func() {
+				o1, o2 := f1.option(), f2.option()
+				base := append([]ucfg.Option{ucfg.PathSep(".")}, policyOpt[g]...)
+				var ca *ucfg.Config
+				if ca, err = ucfg.NewFrom(a.ToGo()); err != nil {
+					return
+				}
+				if err = ca.Merge(b.ToGo(), append(append([]ucfg.Option{}, base...), o1, o2)...); err != nil {
+					return
+				}
+				if ca, err = ucfg.NewFrom(a.ToGo()); err != nil {
+					return
+				}
+				if err = ca.Merge(b.ToGo(), append(append([]ucfg.Option{}, base...), o1)...); err != nil {
+					return
+				}
+				got, err = canonOfConfig(ca)
+			})
+			if pi != nil {
+				return apiPanic("reuse", pi)
+			}
+			sig := fmt.Sprintf("reused-option global=%s %s", g, optSig([]fieldOpt{f1}))
+			if err != nil {
+				return core.Fail("reuse", "ERROR "+sig, err.Error())
+			}
+			if got != want && got != want2 {
+				return core.Fail("reuse", "MISMATCH "+sig, fmt.Sprintf("second call with o1 alone: model=%s impl=%s", want, got))
+			}
+			return core.Result{Nontrivial: f1.Path != f2.Path, Outcome: sig}
+		},
+	}
+}
+
 func plainOrOther(plain, want, got string) string { return plain }
 
 func optSig(fo []fieldOpt) string {
@@ -271,15 +327,24 @@ func init() {
 				withNil := dictTop(unionTrees(cachedEnum(2, kA, 2), cachedEnum(1, kAB, 2), noNilTrees(2, kAB, 2)))
 				wild := []string{"*", "*.a", "*.b", "a.*", "**.a", "**.b", "**.a.a", "*.0", "**.0"}
 				return []*core.Space{
+					c16Reuse(dictTop(unionTrees(noNilTrees(1, kAB, 2), spinesAB(1))), []string{"a", "b", "a.a", "a.b", "b.a", "a.0"}),
 					c16Space("one-option", withNil, paths, 1),
 					c16Space("one-option-spines", dictTop(spinesAB(3)), append(append([]string{}, paths...), "a.0.a", "a.1", "a.1.a", "a.a.0"), 1),
 					c16Space("two-options", base, paths, 2),
 					c16Space("wildcards", unionTrees(base, sp), wild, 1),
 				}
 			}
+			reuseTrees := []*tree.Node{
+				tree.Dict("a", tree.List(tree.LeafN("L"))), tree.Dict("b", tree.List(tree.LeafN("L"), tree.LeafN("L"))),
+				tree.Dict("a", tree.List(tree.LeafN("L")), "b", tree.List(tree.LeafN("L"))),
+				tree.Dict("a", tree.Dict("a", tree.List(tree.LeafN("L")), "b", tree.LeafN("L"))),
+				tree.Dict("a", tree.Dict("b", tree.LeafN("L")), "b", tree.Dict("a", tree.List(tree.LeafN("L")))),
+				tree.Dict("a", tree.Dict("a", tree.LeafN("L")), "b", tree.LeafN("L")),
+			}
 			return []*core.Space{
 				c16Space("one-option", base, paths, 1),
 				c16Space("one-option-spines", sp, append(append([]string{}, paths...), "a.0.a", "a.1", "a.1.a"), 1),
+				c16Reuse(reuseTrees, []string{"a", "b", "a.a", "a.b", "b.a"}),
 			}
 		},
 	})
